@@ -27,16 +27,16 @@ FLOORS = {"competing-generators": 0.3}
 @st.composite
 def _cases(draw):
     n = draw(st.integers(1, 5))
-    prios = draw(st.lists(st.integers(1, 200), min_size=n, max_size=n, unique=True))
+    prios = draw(st.lists(st.integers(-60, 200), min_size=n, max_size=n, unique=True))   # fallback generators sit below 0
     gens = []
     for i in range(n):
         kind = draw(st.sampled_from(["str", "tuple", "multi"]))
-        words = draw(st.lists(st.sampled_from(["alpha", "beta", "x=1", "# c", "line two", "", "z"]), min_size=1, max_size=4))
+        words = draw(st.lists(st.sampled_from(["alpha", "beta", "x=1", "# c", "line two", "", "z", "a\tb\t", "text:  "]), min_size=1, max_size=4))
         gens.append({"path": draw(st.sampled_from(PATHS)), "prio": prios[i], "kind": kind, "words": words,
                      "reload": draw(st.sampled_from([None, "systemctl reload a", "true", ""])), "safe": draw(st.booleans())})
     old = {}
     for p in PATHS:
-        old[p] = draw(st.sampled_from(["absent", "equal", "different", "different", "terminator", "empty"]))
+        old[p] = draw(st.sampled_from(["absent", "equal", "different", "different", "terminator", "empty", "trailing-blank", "blank-line"]))
     return {"gens": gens, "old": old, "reload": draw(st.sampled_from(["yes", "no", "force"])), "acl_safe": draw(st.booleans()),
             "soft": draw(st.sampled_from(["", "Cumulus Linux 5.4"]))}
 
@@ -177,6 +177,13 @@ def check(case):
             old[p] = content + "\n"
         elif mode == "empty":
             old[p] = ""
+        elif mode == "trailing-blank":
+            # same words, but a line ends with a blank / tab on one side only (YAML block scalars, markdown hard breaks)
+            ls = content.split("\n")
+            ls[0] = ls[0].rstrip() + (" " if ls[0] == ls[0].rstrip() else "")
+            old[p] = "\n".join(ls)
+        elif mode == "blank-line":
+            old[p] = content + "\n  "
     changed = {p for p in new_files if old.get(p) != new_files[p][0]}
     unchanged = set(new_files) - changed
     term_only = {p for p in changed if old.get(p) is not None and old[p].splitlines() == new_files[p][0].splitlines()
@@ -185,6 +192,10 @@ def check(case):
         labels.append("changed+unchanged")
     if term_only:
         labels.append("terminator-only-difference")
+    if any(case["old"].get(p) in ("trailing-blank", "blank-line") for p in changed):
+        labels.append("whitespace-only-difference")
+    if any(g["prio"] < 0 for g in specs):
+        labels.append("negative-prio")
     # ---- deploy job
     flag = {"yes": cli_args.EntireReloadFlag.yes, "no": cli_args.EntireReloadFlag.no, "force": cli_args.EntireReloadFlag.force}[case["reload"]]
     args = types.SimpleNamespace(acl_safe=safe, entire_reload=flag)
